@@ -51,6 +51,7 @@ def specs(ctx):
         s["kwargs"]["maxfun"] = max(s["kwargs"].get("maxfun", 100), 10)
         s["kwargs"]["maxiter"] = max(s["kwargs"].get("maxiter", 10), 3)
         out.append(s)
+    out += corpus.scripted_specs(rng, exhaustive_len=1, n_random=ctx.pick(150, 1500))   # incl. line-search failures + resets
     return out
 
 
